@@ -9,6 +9,27 @@ from . import lexref, pengine
 from .tlc import run_tlc, BUILD
 
 
+# TLC keeps strings as Java strings in memory but writes them with one octet per character when states are
+# spilled to its disk queue (a batch of ~15 000 traces is enough): 'é☃' comes back as '\uffe9\u0003'.  Token values
+# are opaque to the specification (compared for equality only; the names it inspects are ASCII), so every value with a
+# character outside ASCII is sent in an ASCII armour and restored in what TLC prints.
+ARM = "\x02"
+
+
+def armour(v):
+    if v.isascii() and ARM not in v:
+        return v
+    return ARM + json.dumps(v)[1:-1]
+
+
+def dearmour(x):
+    if isinstance(x, str):
+        return json.loads('"' + x[1:] + '"') if x.startswith(ARM) else x
+    if isinstance(x, list):
+        return [dearmour(y) for y in x]
+    return x
+
+
 def tlc_judge(token_lists, devs, custom="<<>>", workers=1):
     """token_lists: list of token lists -> (list of outs per trace, tlc stats)"""
     os.makedirs(BUILD, exist_ok=True)
@@ -22,11 +43,11 @@ def tlc_judge(token_lists, devs, custom="<<>>", workers=1):
     def one(idx):
         fd, path = tempfile.mkstemp(prefix="traces_", suffix=".json", dir=BUILD)
         with os.fdopen(fd, "w") as fp:
-            json.dump([{"id": i, "toks": [{"k": k, "v": v} for k, v in token_lists[i]]} for i in idx], fp)
+            json.dump([{"id": i, "toks": [{"k": k, "v": armour(v)} for k, v in token_lists[i]]} for i in idx], fp)
         got = {}
 
         def on_value(v):
-            got[v[0]] = v[2]
+            got[v[0]] = dearmour(v[2])
         cfg = ("SPECIFICATION Spec\nCONSTANTS\n Custom <- MCCustom\n EnabledDevs = {%s}\n"
                "INVARIANT Emit\nINVARIANT OneRefPath\nINVARIANT GatedInv\nCHECK_DEADLOCK FALSE\n"
                % ", ".join('"%s"' % d for d in devs))
